@@ -419,6 +419,17 @@ func extraRoundTripDocs() []*jv {
 			out = append(out, o, jObj([]string{"aa"}, []*jv{o.clone()}))
 		}
 	}
+	// long documents: the printed text (~5 kB) crosses the printer's buffer boundaries (1 kB, 2 kB,
+	// 4 kB, ...) and a leading pad string of 0..47 bytes shifts every token over every alignment
+	// relative to those boundaries (tokens are <= 10 bytes), so a multi-byte token lies across each
+	// boundary in some document
+	for pad := 0; pad < 48; pad++ {
+		xs := []*jv{jStr(strings.Repeat("x", pad))}
+		for i := 0; i < 150; i++ {
+			xs = append(xs, jStr("éé"), jNum(123456), jTrue(), jNull(), jStr("ab\"c"))
+		}
+		out = append(out, jArr(xs...))
+	}
 	return out
 }
 
